@@ -28,6 +28,8 @@ def chain_src(d, vals=None, void=False):
         out.append(f'fn h{i}() {{ {a}(); {b}(); }}' if void else f'fn h{i}() -> u32 {{ let x = {a}(); let y = {b}(); return x + y; }}')
     top = (vals or {}).get('top', f'h{d}')
     out.append(f'@compute @workgroup_size(1) fn main() {{ {top}(); }}' if void else f'@compute @workgroup_size(1) fn main() {{ let r = {top}(); }}')
+    # a second entry point of another stage shares the whole chain (work must not multiply across entry points either)
+    out.append(f'@fragment fn fmain() {{ {top}(); }}' if void else f'@fragment fn fmain() {{ let r = {top}(); }}')
     return '\n'.join(out) + '\n'
 
 
@@ -92,8 +94,8 @@ def run(ctx):
                 assume.append(tb == fh[f'h{i - 1}'])            # both call sites name the previous level: the doubling shape
             else:
                 assume.append(tb == fh['leaf'])
-        n_funcs, n_sites = len(mj['functions']), 2 * d + 1
-        budget = 1 * (n_funcs + n_sites + 1)
+        n_funcs, n_sites = len(mj['functions']), 2 * d + 2
+        budget = 2 * (n_funcs + n_sites + 1)
         res = ctx.explore(f'global_shader_stages/{"void" if void else "value"}-chain-depth-{d}', lambda it: it.call('global_shader_stages', [mkref(module)]), assume=assume,
                           env={'call_caps': {'update_stages': budget + 1}}, anchors=['global_shader_stages', 'update_stages', 'update_stages_blocks'], timeout_s=3000, max_paths=20000)
         worst = (0, None)
